@@ -249,7 +249,8 @@ example : handle intText dsA (cs!"/d.dods") (cs!"a[0:0:2]") = .errdoc (-1) := by
 example : handle intText dsA (cs!"/d.dods") (cs!"a[2:1]") = .errdoc (-1) := by decide +kernel
 example : handle intText dsA (cs!"/d.dods") (cs!"a[1],a[1]") = .errdoc (-1) := by decide +kernel
 example : handle intText dsA (cs!"/d.dods") (cs!"a[1:20]")
-    = .ok .dods (.complete (cs!"Dataset {\n    Int32 a[a = 2];\n} d;\nData:\n6 7")) := by decide +kernel
+    = .ok .dods (.complete (cs!"Dataset {\n    Int32 a[a = 2];\n} d;\nData:\n" ++
+        bytesStr [0, 0, 0, 2, 0, 0, 0, 2, 0, 0, 0, 6, 0, 0, 0, 7])) := by decide +kernel
 example : validSl 3 ⟨some 1, some 21, some 1⟩ = true ∧ validSl 3 ⟨some 3, some 4, some 1⟩ = false := by decide
 
 end Pydap.C15
